@@ -54,6 +54,8 @@ def _violation(rows, r, driver):
     live = _live(evs[-2]) if len(evs) > 1 else []
     ac = {k: v for k, v in (evs[0]["st"].get("acfg") or {}).items() if v}
     what = r["invariant"] if r["kind"] == "violation" else "step"
+    if what == "NoStartDuringExclusive":
+        what = "C14:change-started-during-exclusive"
     key = "C14/%s/%s/%s=>%s | in progress: %s%s" % (driver, what, _req(last), last["res"].get("result"), "; ".join(live),
                                                     " | aliases: %s" % json.dumps(ac, sort_keys=True) if ac else "")
     desc = ("real %s: request %s with in-progress changes [%s] returned %r (change list after: %s)%s"
